@@ -1,5 +1,6 @@
 """C14 -- quotes are honest: simulation equals execution (structural part)."""
 import re
+from fractions import Fraction
 from collections import Counter
 from ..facts import mname, term_callee
 from ..mir import switch_conds, cmp_true_false_edges
@@ -27,35 +28,28 @@ ASSUMPTIONS = [
 CLONE = r"as std::clone::Clone>::clone$"
 
 
+INDEX = r"as std::ops::Index<usize>>::index$"
+
+
+def index_of_operand(v, op, at):
+    """Constant index i such that the operand is (a part / clone / reference of) `pools[i]`, by provenance: the
+    `Index::index` call (kept opaque) or the constant array projection the value comes from. None if not unique."""
+    with v.opaque(INDEX):
+        os_ = v.origins_of_operand(op, at=at)
+    ks = set()
+    for o in os_:
+        c = call_of(v, o)
+        if c and re.search(INDEX, mname(c[1])):
+            ks.add(const_of(v, c[1]["args"][1], v.at_term(c[0])))
+            continue
+        idx = [x for x in o.proj if re.fullmatch(r"\[\d+\]", str(x))]
+        ks.add(Fraction(int(idx[0][1:-1])) if idx else None)
+    return next(iter(ks)) if len(ks) == 1 else None
+
+
 def index_of_site(v, site_block, t, argi=0):
     """Constant index i of `pools[i]` feeding argument argi of the call at site_block."""
-    op = t["args"][argi]
-    seen = set()
-    work = [op]
-    steps = 0
-    while work and steps < 12:
-        steps += 1
-        o = work.pop()
-        if o["k"] not in ("copy", "move"):
-            continue
-        l = o["pl"]["l"]
-        if l in seen:
-            continue
-        seen.add(l)
-        for d in v.defs().get(l, []):
-            if d[0] == "c":
-                n = mname(d[2])
-                if re.search(r"as std::ops::Index<usize>>::index$", n):
-                    return const_of(v, d[2]["args"][1], v.at_term(d[1]))
-                if re.search(CLONE, n) or n.endswith("::deref"):
-                    work.append(d[2]["args"][0])
-            else:
-                rv = d[3]["rv"]
-                if rv["r"] == "ref":
-                    work.append({"k": "copy", "pl": rv["pl"]})
-                elif rv["r"] in ("use", "cast") and rv["op"]["k"] in ("copy", "move"):
-                    work.append(rv["op"])
-    return None
+    return index_of_operand(v, t["args"][argi], v.at_term(site_block))
 
 
 def direction_table(ctx, v, compute_rx, roles, rule, amount_arg=None, amount_role="offer"):
@@ -117,14 +111,8 @@ def direction_table(ctx, v, compute_rx, roles, rule, amount_arg=None, amount_rol
             continue
         # provenance of each role argument in this configuration: definitions in blocks it cannot execute are ignored
         with v.restricted(reach):
-            with v.opaque(CLONE):
-                for role, argi in roles.items():
-                    found = set()
-                    for o in v.origins_of_operand(ct["args"][argi], at=v.at_term(cb)):
-                        if o.kind == "call" and re.search(CLONE, o.a):
-                            sb = int(o.b.rsplit(":bb", 1)[1])
-                            found.add(index_of_site(v, sb, v.blocks[sb]["t"], 0))
-                    table.setdefault(key, {})[role] = next(iter(found)) if len(found) == 1 else None
+            for role, argi in roles.items():
+                table.setdefault(key, {})[role] = index_of_operand(v, ct["args"][argi], v.at_term(cb))
     # an asset that is none of the pools gets no quote
 
     def decide_none(b, c):
